@@ -240,6 +240,9 @@ class Engine:
             self._add_dec(cond if d else z3.Not(cond), d)
             self.model = None
             return d
+        from . import fpworld as _fw
+        if _fw.active() and _fw.mentions_def(cond):
+            return self._branch_fp(cond)
         m = self._ensure_model()
         side = z3.is_true(m.eval(cond, model_completion=True))
         other = z3.Not(cond) if side else cond
@@ -251,6 +254,32 @@ class Engine:
             self.undecided.append("branch feasibility unknown: %s" % str(other)[:200])
         self._add_dec(cond if side else z3.Not(cond), side)
         # cached model still satisfies pc
+        return side
+
+    def _branch_fp(self, cond):
+        """Branch on a condition over binary64 results: feasibility of each side is decided in the float world (the
+        integer solver sees the defined constants unconstrained).  `unknown` counts as feasible (over-approximation:
+        obligations met on such a path are still decided with the full path condition in the float world)."""
+        from . import fpworld as _fw
+        asserts = list(self.s.assertions())
+        t = time.time()
+        old = _fw.CFG['z3_ms'], _fw.CFG['use_cvc5']
+        _fw.CFG['z3_ms'], _fw.CFG['use_cvc5'] = 5000, False
+        try:
+            rt = _fw.decide(asserts, cond)[0]
+            rf = _fw.decide(asserts, z3.Not(cond))[0]
+        finally:
+            _fw.CFG['z3_ms'], _fw.CFG['use_cvc5'] = old
+        self.solver_s += time.time() - t
+        self.queries += 2
+        ft, ff = rt != 'unsat', rf != 'unsat'
+        if not ft and not ff:
+            raise Infeasible()
+        side = ft
+        if ft and ff:
+            self.new_alts.append(self.trace + [False])
+        self._add_dec(cond if side else z3.Not(cond), side)
+        self.model = None
         return side
 
     def concretize(self, t):
@@ -354,6 +383,11 @@ class Engine:
         if e is not None:
             self.obligations -= 1     # already counted (and decided) when first met
             return e[1]
+        from . import fpworld as _fw
+        if _fw.active():
+            asserts = list(self.s.assertions())
+            if _fw.mentions_def(c) or any(_fw.mentions_def(a) for a in asserts):
+                return self._check_fp(c, msg, info, asserts, mk_)
         r = self._q(z3.Not(c))
         self.memo[mk_] = (c.get_id(), r == z3.unsat, c)
         if r == z3.unsat:
@@ -365,6 +399,33 @@ class Engine:
             return False
         self.unknown += 1
         self.undecided.append("obligation unknown: %s" % msg)
+        return False
+
+    def _check_fp(self, c, msg, info, asserts, mk_):
+        """Obligation over binary64 results: decided in the QF_BVFP world (symx.fpworld), never by the integer solver."""
+        from . import fpworld as _fw
+        t = time.time()
+        verdict, vals, note = _fw.decide(asserts, z3.Not(c))
+        self.solver_s += time.time() - t
+        self.queries += 1
+        self.memo[mk_] = (c.get_id(), verdict == 'unsat', c)
+        if verdict == 'unsat':
+            self.discharged += 1
+            self._sample(msg, 'QF_BVFP unsat (%s)' % note)
+            _fw.learn_equality(c)
+            return True
+        if verdict == 'sat':
+            m = self._ensure_model()
+            out = {}
+            for n in self.input_order:
+                out[n] = vals[n] if n in vals else m.eval(self.inputs[n], model_completion=True).as_long()
+            for k, v in vals.items():
+                if k.startswith('fp!') or k.startswith('fpb!'):
+                    out[k] = v
+            self.candidates.append(Candidate(msg, out, info(None) if callable(info) else info))
+            return False
+        self.unknown += 1
+        self.undecided.append("float obligation undecided (%s): %s" % (note, msg))
         return False
 
     def _sample(self, msg, txt):
@@ -619,8 +680,8 @@ class SymInt:
     # -- arithmetic
     def _coerce(self, o):
         """-> (term, isfloat) or None (NotImplemented)."""
-        if type(o).__name__ == 'SymFloat':
-            raise _DeferToFloat()
+        if type(o).__name__ in ('SymFloat', 'LazyArr'):
+            raise _DeferToFloat()      # -> NotImplemented: the other operand's reflected method takes over
         if isinstance(o, SymInt):
             return o.t, o.isfloat
         if isinstance(o, bool):
